@@ -100,14 +100,14 @@ Proof.
   unfold rho_3. apply fold_left_inv; [apply Sub_bfalse|].
   intros acc [i xjk] Hacc.
   match goal with |- context [fold_left ?f xjk ?a] =>
-    assert (Hin : Sub oblig_mode (fst (fold_left f xjk a))) end.
-  { apply (fold_left_inv (fun p : bdd * bdd => Sub oblig_mode (fst p)));
+    assert (Hin : Sub oblig_mode (snd (fold_left f xjk a))) end.
+  { apply (fold_left_inv (fun p : bdd * bdd => Sub oblig_mode (snd p)));
       [apply Sub_bfalse|].
-    intros p xk Hp.
-    apply (fold_left_inv (fun p : bdd * bdd => Sub oblig_mode (fst p))); [exact Hp|].
-    intros [r used] [x hold] Hr. cbn [fst]. apply Sub_bor; [exact Hr|].
+    intros [used0 r0] xk Hp.
+    apply (fold_left_inv (fun p : bdd * bdd => Sub oblig_mode (snd p))); [exact Hp|].
+    intros [used r] [x hold] Hr. cbn [snd]. apply Sub_bor; [exact Hr|].
     apply Sub_band_l, Sub_band_r, ca_sub. }
-  destruct (fold_left _ xjk _) as [r3 used]. cbn [fst] in Hin.
+  destruct (fold_left _ xjk _) as [used r3]. cbn [snd] in Hin.
   apply Sub_bor; [exact Hacc|]. apply Sub_band_l, Hin.
 Qed.
 
@@ -123,7 +123,7 @@ Proof.
           (memo nc nx nyE (fun v => Nat.leb (cnt G v) (length goals - 1))))).
   { apply Sub_band_l. apply Sub_bor; [apply Sub_bor|];
       [apply rho_1_sub|apply rho_2_sub|apply rho_3_sub]. }
-  destruct plus_one eqn:Ep; [exact H0|].
+  destruct plus_one eqn:Ep; cbn [negb]; [exact H0|].
   set (u0 := band _ _) in *.
   destruct moore eqn:Em.
   - intros v. rewrite forall_spec. cbn [forall_raw dom]. unfold oblig_mode. rewrite Em.
@@ -202,7 +202,7 @@ Theorem streett_action_moore_indep po z yij xijk :
   indep (streett_action nc nx ny G E S holds goals true po z yij xijk).
 Proof.
   intros Hz Hy Hx Hg Hh. unfold streett_action. cbv zeta.
-  destruct po; [|apply indep_forall_envp].
+  destruct po; cbn [negb]; [|apply indep_forall_envp].
   apply indep_band; [|apply indep_memo; intros v x'; destruct v; reflexivity].
   apply indep_bor; [apply indep_bor|].
   - apply indep_ca.
@@ -230,20 +230,20 @@ Proof.
       assert (Hinv : indep (fst (fold_left f xjk a)) /\ indep (snd (fold_left f xjk a))) end.
     { apply (fold_left_inv_in (fun p : bdd * bdd => indep (fst p) /\ indep (snd p))).
       - cbn [fst snd]. split; apply indep_bfalse.
-      - intros p xk Hxk Hp. rewrite Forall_forall in Hx. specialize (Hx _ Hxk).
+      - intros [used0 r0] xk Hxk Hp. rewrite Forall_forall in Hx. specialize (Hx _ Hxk).
         apply (fold_left_inv_in (fun p : bdd * bdd => indep (fst p) /\ indep (snd p)));
           [exact Hp|].
-        intros [r used] [x hold] Hxh [Hr Hu]. cbn [fst snd].
+        intros [used r] [x hold] Hxh [Hu Hr]. cbn [fst snd].
         pose proof (in_combine_l _ _ _ _ Hxh) as Hx1.
         pose proof (in_combine_r _ _ _ _ Hxh) as Hh1.
         rewrite Forall_forall in Hx, Hh.
         specialize (Hx _ Hx1). specialize (Hh _ Hh1).
         split.
+        + apply indep_bor; assumption.
         + apply indep_bor; [exact Hr|]. apply indep_band; [|exact Hh].
           apply indep_band; [|apply indep_ca].
-          apply indep_band; [exact Hx|apply indep_bnot, Hu].
-        + apply indep_bor; assumption. }
-    destruct (fold_left _ xjk _) as [r3 used]. cbn [fst snd] in Hinv.
+          apply indep_band; [exact Hx|apply indep_bnot, Hu]. }
+    destruct (fold_left _ xjk _) as [used r3]. cbn [fst snd] in Hinv.
     apply indep_bor; [exact Hacc|]. apply indep_band; [apply Hinv|apply indep_count_eq].
 Qed.
 
@@ -307,7 +307,7 @@ Lemma rho_3_Rc mo po xijk v :
 Proof.
   revert v. unfold rho_3. apply (fold_left_inv (fun u : bdd => forall v, u v = true -> Rc v = true)).
   - intros v H; discriminate.
-  - intros acc [i xjk] Hacc v. destruct (fold_left _ xjk _) as [r3 used].
+  - intros acc [i xjk] Hacc v. destruct (fold_left _ xjk _) as [used r3].
     rewrite bor_spec, band_spec, orb_true_iff, andb_true_iff.
     intros [H|[_ H]]; [apply Hacc, H|apply (count_eq_same i), H].
 Qed.
@@ -362,7 +362,7 @@ Proof.
       apply Nat.leb_le in Hl. rewrite Hl in H. cbn in H. apply Nat.leb_le, H.
     - apply rho_3_Rc in H. unfold Rc in H.
       apply Nat.leb_le in Hl. rewrite Hl in H. cbn in H. apply Nat.leb_le, H. }
-  destruct po.
+  destruct po; cbn [negb].
   - intros H. destruct (Hu0 H) as [H1 H2]. split; [intros He; split; auto|auto].
   - destruct mo.
     + rewrite forall_spec. cbn [forall_raw dom]. rewrite forallb_forall. intros H.
